@@ -159,7 +159,7 @@ def run_shard(ctx):
             ctx.fail(b, w, case)
 
     n = P["n_cases"]
-    forces = [None, "scan", "vmap", "cond", "vdist", "call", "detcall"]
+    forces = [None, "scan", "vmap", "cond", "vdist", "call", "detcall", "condm"]
     drive(ctx, cases(False, forces[ctx.shard % len(forces)]), n - n // 3, one, "cont")
     drive(ctx, cases(True, forces[(ctx.shard + 1) % len(forces)]), n // 3, one, "disc")
     nk = modelir.NEST_KINDS  # combinators applied directly to combinators
